@@ -31,6 +31,9 @@ def step (line : String) : String :=
   | "rxryobs" :: args => handleStructure "rxryobs" args
   | "switch" :: args => handleStructure "switch" args
   | "clipf" :: args => handleClip args
+  | "obbgrad" :: args => handleBBox "obbgrad" args
+  | "obbclip" :: args => handleBBox "obbclip" args
+  | "obbrect" :: args => handleBBox "obbrect" args
   | "gbox" :: args => handleBBox "gbox" args
   | "rectts" :: args => handleBBox "rectts" args
   | "abst" :: args => handleBBox "abst" args
